@@ -344,6 +344,16 @@ class Machine(object):
                     raise Unsupported("deref of %r in %s" % (v, place_str(p)))
             elif k == "field":
                 v = cell.val
+                if cell.name == "<box-content>":
+                    continue   # MaybeUninit / ManuallyDrop wrappers around the boxed value are transparent
+                if isinstance(v, AdtVal) and v.ty == "box:uninit":
+                    # Box<MaybeUninit<T>> { Unique { NonNull { pointer } } }: every field on the way is the pointer to the content
+                    if isinstance(v.fields[0].val, Ref):
+                        continue
+                    cell = Cell(Ref(v.fields[0], True))
+                    continue
+                if isinstance(v, Ref) and isinstance(v.cell, Cell) and v.cell.name == "<box-content>":
+                    continue   # .pointer of the NonNull: still the pointer
                 if isinstance(v, Opaque):
                     v = self.materialise_struct(cell, e.get("of"))
                 if isinstance(v, AdtVal):
@@ -635,7 +645,7 @@ class Machine(object):
                 st.exit = "panic"
                 st.ret = ("assert", t["msg"], t["span"]["line"])
                 return None
-            if not isinstance(c, Const):
+            if not isinstance(c, Const) and t["msg"] not in ("misaligned", "null_deref"):   # debug-build pointer checks on Box pointers are not program logic
                 st.effects.append(("assert", t["msg"], lab(c), loc(t)))
             fr.bb = t["target"]
             return None
@@ -679,7 +689,9 @@ class Machine(object):
 
     def write(self, st, fr, lhs, cell, v, stmt):
         # assignments through a reference into caller-visible (labelled) memory are effects
-        if cell.name is not None:
+        if cell.name == "<box-content>":
+            pass   # initialising a fresh box (vec![..]) is not visible outside
+        elif cell.name is not None:
             st.effects.append(("assign", cell.name, lab(v), loc(stmt)))
         elif self.is_external(fr, lhs, cell):
             st.effects.append(("assign", self.place_label(st, fr, lhs), lab(v), loc(stmt)))
@@ -974,6 +986,14 @@ class Machine(object):
                 return finish(r)
             # undecided: pure opaque value (its variant is forked on when it is matched)
             return finish(Opaque(("call", name, tuple(lab(a) for a in args)), t["dest"]["ty"]))
+        if d == "std::boxed::Box::<T>::new_uninit" or name == "std::boxed::Box::<T>::new_uninit":
+            # the expansion of vec![..]: a fresh box whose content is written through its raw pointer and then turned into a Vec
+            return finish(AdtVal("box:uninit", None, {0: Cell(None, "<box-content>")}))
+        if d.endswith("box_assume_init_into_vec_unsafe") or name.endswith("box_assume_init_into_vec_unsafe"):
+            b = deref_val(args[0])
+            if isinstance(b, AdtVal) and b.ty == "box:uninit" and b.fields[0].val is not None:
+                return finish(b.fields[0].val)
+            raise Unsupported("box_assume_init_into_vec_unsafe on %r" % (b,))
         if "core::tuple::<impl std::cmp::PartialOrd for (U, T)>::" in name and name.rsplit("::", 1)[1] in ("lt", "le", "gt", "ge") and len(args) == 2:
             # lexicographic comparison of pairs, expanded into comparisons of the components (forks like the hand-written form)
             op = name.rsplit("::", 1)[1]
